@@ -1080,7 +1080,7 @@ def rtc_solve(names, tier):
             return {"batched": [c_chol1], "bcast1": [c_cg0], "extra": [c_cg1], "mat1": [c_chol0]}.get(rk, cfgs_light) if len(subset) != nall else cfgs_light
 
         # ---- solve
-        for rk, sh in _rhs_kinds(batch, n, ("vec", "mat", "batched", "bcast1", "extra")).items():
+        for rk, sh in _rhs_kinds(batch, n, ("vec", "mat", "batched") + (("bcast1", "extra") if (thorough or n == 4) else ())).items():
             X = _rn(g, *sh)
             W = _W(g, _solve_dense(D0, X).shape)
             cache = {}
@@ -1109,6 +1109,8 @@ def rtc_solve(names, tier):
             X = _rn(g, *sh)
             for red in (True, False):
                 if rk == "vec" and not red:
+                    continue
+                if not red and rk != "mat" and not thorough:
                     continue
                 ref_shape = ((X.unsqueeze(-1) if X.dim() == 1 else X) * 1.0).shape
                 oshape = (*batch,) if red else (*batch, ref_shape[-1])
